@@ -180,6 +180,9 @@ func (st *State) clone() *State {
 		n.frames[i] = &nf
 	}
 	n.heap = st.heap.clone()
+	if st.oldHeap != nil {
+		n.oldHeap = st.oldHeap.clone() // lazily initialised entries are declared per path
+	}
 	n.cellVals = make(map[*Cell]Value, len(st.cellVals))
 	for k, v := range st.cellVals {
 		n.cellVals[k] = v
@@ -212,8 +215,12 @@ func (st *State) oblige(kind, name, goal, note string) {
 		name = f.inlTag + name
 	}
 	mv := st.modelVars()
+	asserts := st.asserts.slice()
+	if strings.Contains(goal, "(forall ((") {
+		goal, asserts = st.pointwise(goal, asserts)
+	}
 	vc := &VC{Name: name, Func: st.res.Key, Kind: kind, Goal: goal, Note: note,
-		Decls: st.decls.slice(), Asserts: st.asserts.slice(), Props: st.clauseProps, ModelVars: mv}
+		Decls: st.decls.slice(), Asserts: asserts, Props: st.clauseProps, ModelVars: mv}
 	if strings.Contains(goal, "(forall ") || strings.Contains(goal, "(exists ") {
 		vc.Quant = true
 	}
@@ -358,9 +365,18 @@ func (st *State) assumeWF(v Value) {
 	}
 	if v.S == SRef {
 		st.assume(st.validRef(v.Term))
+		st.assume(st.typedRef(v.Term, v.T))
 	}
 	if v.S == SSlice {
 		st.assume(st.validRef(app("s_ref", v.Term)))
+		// elements of a []*T (T a named struct) are typed storage as well
+		if sl, ok := v.T.Underlying().(*types.Slice); ok {
+			if tr := st.typedRef("ELEM", sl.Elem()); tr != "true" {
+				arr := app("select", st.elemsArr(st.heap, SRef), app("s_ref", v.Term))
+				el := app("select", arr, "tq_k")
+				st.assume(fmt.Sprintf("(forall ((tq_k (_ BitVec 64))) (! %s :pattern (%s)))", strings.ReplaceAll(tr, "ELEM", el), el))
+			}
+		}
 	}
 	if v.S == SIface {
 		st.assume(st.validRef(app("i_ref", v.Term)))
@@ -383,6 +399,28 @@ func rootID(r string) string {
 			return app("rid", r)
 		}
 	}
+}
+
+// typedRef: storage is typed. A non-nil pointer of static type *T (T a named
+// struct type) points to storage of type T, so pointers to different struct
+// types never alias (interior pointers are structurally distinct Ref terms).
+func (st *State) typedRef(r string, T types.Type) string {
+	if T == nil {
+		return "true"
+	}
+	pt, ok := T.Underlying().(*types.Pointer)
+	if !ok {
+		return "true"
+	}
+	n, ok := pt.Elem().(*types.Named)
+	if !ok {
+		return "true"
+	}
+	if _, isStruct := n.Underlying().(*types.Struct); !isStruct {
+		return "true"
+	}
+	st.eng.pre.Fun("rtype", "(Ref) Int")
+	return imp(not(eq(r, nilRef)), eq(app("rtype", r), fmt.Sprint(st.eng.te.TypeID(n))))
 }
 
 func (st *State) validRef(r string) string {
